@@ -384,6 +384,83 @@ def judge(ctx, J, results, report=True):
     return runs, bad
 
 
+def udp_burst(ctx):
+    """UDP under load (UdpPipe.tla): datagrams arrive while the dispatcher is held inside the first one."""
+    # model: the code as it is (one buffer, the reader runs the handler) keeps the buffer stable; a reader that runs
+    # ahead of the handler through a ring of buffers is sound only with Ring >= Chan + 2
+    base = dict(NDatagrams=ctx.pick(5, 7), LinesPer=2)
+    ctx.tlc("UdpPipe", "UdpPipe_mc.cfg", consts=dict(base, Kind="sync", Ring=1, Chan=0), workers=2)
+    ctx.tlc("UdpPipe", "UdpPipe_mc.cfg", consts=dict(base, Kind="pipe", Ring=4, Chan=2), workers=2)
+    rej = []
+    for ring, chan in ((4, 3), (1, 0), (2, 1)):
+        r = ctx.tlc("UdpPipe", "UdpPipe_mc.cfg", consts=dict(base, Kind="pipe", Ring=ring, Chan=chan), workers=2, expect_ok=False,
+                    count=False, tag="nv_udppipe_%d_%d" % (ring, chan))
+        if r["violated"] not in ("BufferStable", "PrefixOK"):
+            raise Machinery("deviation ring=%d chan=%d is not rejected by UdpPipe.tla (violated=%s): vacuity" % (ring, chan, r["violated"]))
+        rej.append("pipe ring=%d chan=%d -> %s" % (ring, chan, r["violated"]))
+    # the real listener
+    rf = os.path.join(ctx.out, "c12_burst.ndjson")
+    nb = ctx.pick(25, 200)
+    res = ctx.go_test("inputs", run="^TestUDPBurst$", timeout=ctx.pick(600, 3000), expect_ok=False,
+                      env=dict(VERIF_C12_BURST_RESULT=rf, VERIF_C12_BURSTS=nb))
+    recs = ctx.read_ndjson(rf) if os.path.exists(rf) else []
+    if res["rc"] != 0:
+        if "panic:" in res["text"] or "fatal error:" in res["text"]:
+            ctx.violation("handler-panics udp-burst", "the UDP input panicked under a burst of datagrams", dict(tail=res["text"][-2000:]))
+            return
+        raise Machinery("udp burst driver failed (rc=%s); log %s\n%s" % (res["rc"], res["log"], res["text"][-2000:]))
+    if not recs or recs[-1]["ev"] != "end":
+        raise Machinery("udp burst driver result is incomplete")
+    bursts = [r for r in recs if r["ev"] == "burst"]
+    nobar = [b["b"] for b in bursts if not b["barrier"]]
+    if nobar:
+        raise Machinery("udp burst: no sentinel datagram came through for bursts %s" % nobar[:5])
+
+    def trace_of(b):
+        return dict(ev="burst", b=b["b"], lens=b["lens"], got=[list(x) for x in b["got"]])
+
+    todo = list(bursts)
+    nrej = 0
+    for _ in range(6):
+        if not todo:
+            break
+        tf = ctx.write_ndjson("c12_burst_trace.ndjson", [trace_of(b) for b in todo])
+        ok, matched, r = ctx.validate_traces("UdpBurstTrace", "UdpBurstTrace.cfg", tf, len(todo), len(todo))
+        if ok:
+            break
+        b = todo[matched]
+        nrej += 1
+        seen = []
+        for k, j in b["got"]:
+            if k not in seen:
+                seen.append(k)
+        ctx.violation("udp-burst datagram-lines-mixed", "burst of %d datagrams (first one %d bytes, dispatcher held inside its first line while the "
+                      "others arrived): the dispatched lines are not the lines of the datagrams, datagram after datagram, each line once: "
+                      "datagrams in order of first appearance %s, %d lines dispatched for %d sent, %d lines that are no line of any datagram%s"
+                      % (len(b["lens"]), b["first_bytes"], seen[:12], len(b["got"]), sum(b["lens"]), sum(1 for x in b["got"] if x[0] == 0),
+                         (" e.g. %r" % b["foreign"][0]) if b["foreign"] else ""),
+                      dict(burst=dict(b, got=b["got"][:60])))
+        todo = todo[:matched] + todo[matched + 1:]
+    # vacuity: bursts in which the handler was held, the first datagram exceeded the scanner's buffer, and >= 5 more arrived complete
+    full = [b for b in bursts if b["held"] and b["first_bytes"] > 4096 and len({x[0] for x in b["got"]} - {0}) >= 6]
+    if len(full) < max(5, nb // 3) and not ctx.violations:
+        raise Machinery("udp burst: only %d of %d bursts had the dispatcher held with six or more datagrams delivered" % (len(full), nb))
+    # binding self-test: a line of datagram 5 in the place of a line of datagram 1 must be rejected
+    if not ctx.violations:
+        b = json.loads(json.dumps(full[0]))
+        i = next(i for i, x in enumerate(b["got"]) if x[0] == 1 and x[1] == b["lens"][0] // 2)
+        b["got"][i] = [5, 1]
+        tf = ctx.write_ndjson("c12_burst_selftest.ndjson", [trace_of(b)])
+        ok, matched, r = ctx.validate_traces("UdpBurstTrace", "UdpBurstTrace.cfg", tf, 1, 0)
+        if ok:
+            raise Machinery("binding self-test failed (udp burst): a burst with a foreign line inside datagram 1 was accepted")
+    ctx.cov["udp_burst"] = dict(bursts=len(bursts), dispatcher_held_and_six_datagrams_delivered=len(full),
+                                datagrams=sum(len(b["lens"]) for b in bursts), lines=sum(sum(b["lens"]) for b in bursts),
+                                datagrams_lost_whole=sum(len(b["lens"]) - len({x[0] for x in b["got"]} - {0}) for b in bursts),
+                                model_deviations_rejected=rej)
+    return len(bursts)
+
+
 def run(ctx):
     q = ctx.quick()
     rng = random.Random(ctx.seed)
@@ -471,6 +548,8 @@ def run(ctx):
                 raise Machinery("binding self-test failed: %s" % ("a result without its %d-byte line was accepted" % AMQP_LIMIT
                                                                   if want_bad else "an acceptable list was rejected"))
     ctx.cov["binding_selftests"] = "passed"
+    # 5. UDP under load
+    udp_burst(ctx)
     capres = [r for r in results if J.meta[r["id"]][2] == "amqp-4k"]
     ctx.cov["amqp_4k_limit"] = dict(J.cap_stats, line_lengths={str(k): v for k, v in sorted(J.cap_stats["line_lengths"].items())},
                                     results=len(capres),
